@@ -524,7 +524,8 @@ impl Run<'_> {
                 k: rng.below(self.ledger.held.len()),
                 sub: None,
                 class,
-                slot,
+                // C11: each frame is freed either through the slot or with no slot
+                slot: if p.single && rng.chance(1, 2) { None } else { slot },
             },
             3 => {
                 let k = rng.below(self.ledger.held.len());
@@ -1323,9 +1324,21 @@ impl Run<'_> {
                 }
                 self.light = false;
                 if !self.stop {
-                    // one full comparison at the end of the bulk
-                    self.calls_since_full = usize::MAX / 2;
-                    self.do_call(Call::Drain, None);
+                    // one full comparison at the end of the bulk (no allocator call: a drain
+                    // here would destroy the reservation state the histories are about)
+                    self.lower_changed();
+                    self.calls_since_full = 0;
+                    self.stats.full_compares += 1;
+                    if let Ok(Some((f, got, want))) = masked(|| guarded(|| compare_frames(&self.alloc, &self.model))) {
+                        self.report(
+                            Violation::new(
+                                "C02",
+                                "frame-state-diverged",
+                                format!("after exhausting memory with {c:?}: frame {f} free={got} in the allocator, free={want} in the model"),
+                            ),
+                            true,
+                        );
+                    }
                 }
             }
             Step::Warm => self.handoff(),
